@@ -58,4 +58,49 @@ pub open spec fn carried_ok(ops: Seq<DiffOp>) -> bool {
     }
 }
 
+// ---------------------------------------------------------------------------------------------
+// C09, last sentence: an insertion sits at its latest position
+// ---------------------------------------------------------------------------------------------
+/// the Insert at position i, if an Equal follows it, cannot slide down across that Equal: the first inserted item
+/// differs from the first item of the Equal (the pair `common_prefix_len` would compare first)
+pub open spec fn ins_late_at(rel: Rel, ops: Seq<DiffOp>, i: int) -> bool {
+    (ops[i] is Insert && i + 1 < ops.len() && ops[i + 1] is Equal) ==> !rel(op_old_index(ops[i + 1]) as int, op_new_index(ops[i]) as int)
+}
+
+/// every pure insertion that is followed by equal items sits at its latest position (what the captured ops satisfy)
+pub open spec fn ins_late(rel: Rel, ops: Seq<DiffOp>) -> bool {
+    forall|i: int| 0 <= i < ops.len() ==> #[trigger] ins_late_at(rel, ops, i)
+}
+
+/// the Insert at position i is stuck: it is the last op, or an Equal follows it across which it cannot slide down
+/// (what the insertion pass of `cleanup_diff_ops` leaves behind: no Insert is followed by a Delete or an Insert)
+pub open spec fn ins_stuck_at(rel: Rel, ops: Seq<DiffOp>, i: int) -> bool {
+    (ops[i] is Insert && i + 1 < ops.len()) ==> (ops[i + 1] is Equal && !rel(op_old_index(ops[i + 1]) as int, op_new_index(ops[i]) as int))
+}
+
+/// all Inserts among the first n ops are stuck
+pub open spec fn ins_stuck_upto(rel: Rel, ops: Seq<DiffOp>, n: int) -> bool {
+    forall|i: int| 0 <= i < n && i < ops.len() ==> #[trigger] ins_stuck_at(rel, ops, i)
+}
+
+pub open spec fn ins_stuck(rel: Rel, ops: Seq<DiffOp>) -> bool { ins_stuck_upto(rel, ops, ops.len() as int) }
+
+/// a and b are the same op, or two Equals with the same start (one grew or shrank at its end)
+pub open spec fn head_same(a: DiffOp, b: DiffOp) -> bool {
+    a == b || (a is Equal && b is Equal && op_old_index(a) == op_old_index(b))
+}
+
+/// the ops before position n are untouched, except that the one at n - 1 may be an Equal that kept its start
+pub open spec fn same_before(a: Seq<DiffOp>, b: Seq<DiffOp>, n: int) -> bool {
+    &&& 0 <= n <= a.len() && n <= b.len()
+    &&& forall|i: int| 0 <= i < n - 1 ==> a[i] == #[trigger] b[i]
+    &&& n >= 1 ==> head_same(a[n - 1], b[n - 1])
+}
+
+/// no Insert at positions lo .. hi
+pub open spec fn no_insert_in(ops: Seq<DiffOp>, lo: int, hi: int) -> bool {
+    forall|i: int| lo <= i < hi && 0 <= i < ops.len() ==> !((#[trigger] ops[i]) is Insert)
+}
+
+
 } // verus!
